@@ -194,7 +194,33 @@ class StmtMixin:
         return items
 
     def ex_Delete(self, s, st):
-        raise EngineError('del statement')
+        if len(s.targets) != 1 or not isinstance(s.targets[0], ast.Subscript):
+            raise EngineError('del statement other than del d[k]')
+        t = s.targets[0]
+
+        def fin(vs, s1):
+            c, k = vs
+            if isinstance(c, Ref):
+                h = s1.obj(c)
+                if h.kind == 'dict':
+                    kk = self.hashable_key(k)
+                    if kk in h.items:
+                        del h.items[kk]
+                        return [(NORMAL, s1)]
+                    return [(raise_out(ExcV('KeyError', (k,))), s1)]
+                if h.kind == 'smap':
+                    kt = self.key_term(k, h)
+                    out = []
+                    for isin, s2 in self.branch(s1, z3.Select(h.meta['present'], kt)):
+                        if isin:
+                            h2 = s2.obj(c)
+                            h2.meta['present'] = z3.Store(h2.meta['present'], kt, False)
+                            out.append((NORMAL, s2))
+                        else:
+                            out.append((raise_out(ExcV('KeyError', (k,))), s2))
+                    return out
+            raise EngineError('del on ' + type(c).__name__)
+        return self.lift(self.eval_list([t.value, t.slice], st), fin)
 
     # ------------------------------------------------------------------ control flow
     def ex_If(self, s, st):
@@ -352,9 +378,9 @@ class StmtMixin:
     def concrete_iterable(self, v, st):
         """A finite, concretely known sequence of values, or None."""
         if isinstance(v, tuple):
-            if len(v) == 2 and v[0] == 'frozenlist':
+            if len(v) == 2 and (isinstance(v[0], str) and v[0] == 'frozenlist'):
                 return list(v[1])
-            if len(v) == 2 and v[0] == 'range':
+            if len(v) == 2 and (isinstance(v[0], str) and v[0] == 'range'):
                 return None
             return list(v)
         if isinstance(v, Ref):
@@ -431,7 +457,8 @@ class StmtMixin:
         mods = set(spec.modifies_locals) if spec.modifies_locals is not None else self.assigned_names(s.body)
         if kind == 'for':
             mods |= self.assigned_names([s.target])
-        for name in mods:
+        mods |= set(spec.local_types)
+        for name in sorted(mods):
             if name in st.env or spec.local_types.get(name) is not None:
                 st.env[name] = ctx.havoc_local(name, st.env.get(name), spec)
         spec.havoc_heap(ctx)
